@@ -601,6 +601,25 @@ pub fn run(ctx: &Ctx) {
         h.extend((0..n).step_by(3).map(|k| Op::Symbol(format!("sym{k}"), 2000 + k as i128)));
         long.push(h);
     }
+    // symbols of every kind of value (maps and lists among them) defined earlier with another value through every way
+    // a builder takes symbols: the value registered last is the one a rule sees, whole
+    let redefined = super::c12::redefined_symbol_cases();
+    ctx.enumerate(
+        "redefined-symbol-values",
+        redefined.len() as u64,
+        true,
+        |i, acc| {
+            let (earlier, case) = &redefined[i as usize];
+            acc.cell(&format!("redefined-symbols:way{}", earlier[0].0), true);
+            if i % 61 == 0 {
+                acc.sample("redefined-symbols", || format!("earlier s = {}, then {}", show_value(&earlier[0].2), case.render()).chars().take(300).collect());
+            }
+            super::c12::check_redefined(earlier, case).map_err(|i| Issue::new(i.sig.replace("history:", "names:"), i.msg))
+        },
+        |i| serde_json::json!({"redefined_symbols": i}),
+        "redefined-symbols",
+    );
+
     ctx.enumerate(
         "long-histories",
         long.len() as u64,
@@ -651,6 +670,9 @@ pub fn run(ctx: &Ctx) {
 }
 
 pub fn replay(j: &serde_json::Value) -> Option<Verdict> {
+    if let Some(i) = j.get("redefined_symbols").and_then(|i| i.as_u64()) {
+        return super::c12::redefined_symbol_cases().get(i as usize).map(|(e, c)| super::c12::check_redefined(e, c).map_err(|i| Issue::new(i.sig.replace("history:", "names:"), i.msg)));
+    }
     ops_from_json(j).map(|ops| check_history(&ops))
 }
 
